@@ -14,6 +14,7 @@ structure St where
   remoteBanned : List Bytes := []
   keys : List (String × Bytes) := []        -- key name ↦ key string
   order : List String := []                  -- client names in creation order
+  deaf : List String := []                   -- connections whose socket fails every write (injected fault)
 
 def St.env (st : St) (banned : List Bytes) : Env :=
   { cipher := st.cipher, contractId := st.contract, signature := st.sign, now := st.now, banned := banned }
@@ -49,7 +50,7 @@ def isNotification (p : String) : Bool :=
 
 def renderOut (st : St) (out : Out) (sortAll sortHist : Bool) (drop : Option String) : String :=
   let parts := st.order.filterMap (fun n =>
-    if drop == some n then none else
+    if drop == some n || st.deaf.contains n then none else
     let ps := (out.filter (·.1 == n)).map (fun e => showPkt e.2)
     let ps := ps.filter (!isNotification ·) ++ ps.filter isNotification
     if ps.isEmpty then none else
@@ -196,6 +197,7 @@ def stepLine (st : St) (ws : List String) (_impl : String) : St × Ans :=
       | some t, some perm =>
           (st, { m := toString ((authorize (st.env st.remoteBanned) (parseChannel t) (UInt8.ofNat perm)).isSome) })
       | _, _ => (st, bad)
+  | ["deafen", name] => ({ st with deaf := name :: st.deaf }, { m := "ok" })
   | ["close", name] => apply st name .close true false (some name)
   | ["disc", name] => apply st name .close true false (some name)
   | ["rawclose", name, _] => apply st name .close true false (some name)
